@@ -11,6 +11,11 @@
 //         in the test arena under max_allowed_parallelism 1, in the test arena with all workers (runs-1 times) and in a
 //         one-slot arena; the strings of all runs that saw the same max_concurrency() must be identical
 //         (simple_partitioner: of all runs)
+//   every reduce / dreduce / scan line also has  nest=<k>: every k-th body invocation (0 = never) runs and waits for a tiny nested task_group
+//         inside operator(), so the thread may execute a sibling subtask of the same algorithm while that body is still open;
+//         reduce / dreduce lines have  ctx=<0|1>: 1 = the overload that takes a task_group_context (an isolated one) is called;
+//         dreduce part=default = the overload without a partitioner argument (documented to be simple_partitioner); every dreduce op
+//         additionally runs the explicit simple_partitioner overload without context as the reference tree for simple / default
 //   scan form=<fn|body> part=<simple|auto|default> begin=<b> n=<n> grain=<g> work=<k>
 //         parallel_scan with the free monoid; every final pass is checked against its incoming prefix
 //   sort n=<n> kind=<rand|sorted|reverse|inv|few> p=<pos> ranks=<R> cmp=<lt|gt|mod|default> mod=<m> it=<vec|ptr|rng> seed=<s> cw=<k>
@@ -24,6 +29,7 @@
 #include "oneapi/tbb/blocked_range.h"
 #include "oneapi/tbb/partitioner.h"
 #include "oneapi/tbb/task_arena.h"
+#include "oneapi/tbb/task_group.h"
 #include "oneapi/tbb/global_control.h"
 #include "../engine/drv/drv.h"
 
@@ -57,7 +63,8 @@ static int gen_grain(Src& s) {
 static std::string gen_rng(Src& s, bool simple_like) {
     int g = gen_grain(s); int n = gen_size(s, g, simple_like ? std::min(64 * g, 2048) : 600);
     long b; switch (s.choose(4)) { case 0: b = 0; break; case 1: b = -s.range(1, 40); break; case 2: b = (long)INT_MAX - n; break; default: b = s.range(1, 1000); break; }
-    return "begin=" + std::to_string(b) + " n=" + std::to_string(n) + " grain=" + std::to_string(g) + " work=" + std::to_string(s.range(0, 6));
+    static const int NEST[] = { 0, 2, 3, 5 };
+    return "begin=" + std::to_string(b) + " n=" + std::to_string(n) + " grain=" + std::to_string(g) + " work=" + std::to_string(s.range(0, 6)) + " nest=" + std::to_string(NEST[s.weighted({ 5, 1, 2, 2 })]);
 }
 static std::string gen_sort(Src& s) {
     static const int NS[] = { 500, 10, 9, 11, 499, 501, 0, 1, 2, 3, 8, 12, 100, 498, 502, 503, 511, 512, 513, 600, 777, 1000, 1024, 1500, 2000, 3000 };
@@ -90,8 +97,8 @@ std::string h_gen(Src& s) {
     for (int k = 0; k < nops; k++) {
         const char* form = s.flip() ? "body" : "fn";
         switch (s.weighted({ 6, 4, 5, 5 })) {
-        case 0: { int part = (int)s.weighted({ 3, 4, 2, 3, 1 }); o += std::string("reduce form=") + form + " part=" + PARTS[part] + " " + gen_rng(s, part == 0); break; }
-        case 1: { int part = s.flip() ? 2 : 0; o += std::string("dreduce form=") + form + " part=" + PARTS[part] + " " + gen_rng(s, part == 0) + " runs=" + std::to_string(s.range(2, 3)); break; }
+        case 0: { int part = (int)s.weighted({ 3, 4, 2, 3, 1 }); o += std::string("reduce form=") + form + " part=" + PARTS[part] + " ctx=" + std::to_string((int)s.coin(3)) + " " + gen_rng(s, part == 0); break; }
+        case 1: { static const int DP[] = { 0, 2, 4 }; int part = DP[s.weighted({ 3, 3, 2 })]; o += std::string("dreduce form=") + form + " part=" + PARTS[part] + " ctx=" + std::to_string((int)s.coin(2)) + " " + gen_rng(s, part != 2) + " runs=" + std::to_string(s.range(2, 3)); break; }
         case 2: { static const int P[] = { 1, 0, 4 }; int part = P[s.choose(3)]; o += std::string("scan form=") + form + " part=" + PARTS[part] + " " + gen_rng(s, part == 0); break; }
         default: o += gen_sort(s); break;
         }
@@ -121,6 +128,19 @@ template <class F> static void with_part(int part, const F& f) {
     else { tbb::affinity_partitioner ap; f(ap); }
 }
 
+// a tiny nested task_group run + wait inside a body: while it waits the thread may run a sibling subtask of the enclosing algorithm
+static int g_nest = 0; static long g_body_ctr = 0, n_nested = 0;
+// On the calling thread the nested task is enqueued into a helper arena instead, so the wait cannot be satisfied from the local pool and the
+// caller executes whatever it finds meanwhile -- e.g. its own freshly spawned right sibling while the left body is still open.  (Only the
+// caller does that: worker threads waiting for another arena could use up all workers that arena needs.)
+static tbb::task_arena* g_helper = nullptr;
+static void maybe_nest() {
+    if (!g_nest || (++g_body_ctr % g_nest) != 0) return;
+    n_nested++; tbb::task_group tg;
+    if (g_helper && vs_self() == g_caller) g_helper->enqueue(tg.defer([] { vs_work(2); })); else tg.run([] { vs_work(1); });
+    tg.wait();
+}
+
 // ------------------------------------------------------------------ reduce
 static int g_next_body = 0;
 struct RBody {
@@ -132,9 +152,13 @@ struct RBody {
     }
     void operator()(const BR& r) {
         if (dead) vs_violation("JOIN-PARTNER", "body %d ran [%d,%d) after it had been joined into another body", id, r.begin(), r.end());
+        if (running) vs_violation("JOIN-PARTNER", "body %d entered for [%d,%d) while it is still inside operator() for an earlier subrange", id, r.begin(), r.end());
         range_check(r, "parallel_reduce"); running++; n_body_calls++; if (vs_self() != g_caller) n_body_other++;
         vs_work(g_work);
-        for (int i = r.begin(); i < r.end(); i++) acc.push_back(i);
+        int half = r.begin() + (r.end() - r.begin()) / 2;
+        for (int i = r.begin(); i < half; i++) acc.push_back(i);
+        maybe_nest();
+        for (int i = half; i < r.end(); i++) acc.push_back(i);
         running--;
     }
     void join(RBody& rhs) {
@@ -149,10 +173,12 @@ struct RBody {
 static void op_reduce(const std::string& l) {
     bool body = kvs(l, "form", "fn") == "body"; int part = part_of(l); g_B = (int)kvl(l, "begin", 0); g_N = (int)kvl(l, "n", 0); int g = (int)kvl(l, "grain", 1); g_work = (int)kvl(l, "work", 0);
     if (g < 1 || g_N < 0) vs_inconclusive("BAD-CASE", "reduce");
+    bool cx = kvl(l, "ctx", 0) != 0; g_nest = (int)kvl(l, "nest", 0); tbb::task_group_context ctx(tbb::task_group_context::isolated);
     BR range(g_B, g_B + g_N, (size_t)g); g_caller = vs_self(); long s0 = n_splits_other, c0 = n_body_calls;
     if (body) {
         RBody b;
-        if (part == 4) tbb::parallel_reduce(range, b); else with_part(part, [&](auto&& p) { tbb::parallel_reduce(range, b, p); });
+        if (cx) { if (part == 4) tbb::parallel_reduce(range, b, ctx); else with_part(part, [&](auto&& p) { tbb::parallel_reduce(range, b, p, ctx); }); }
+        else if (part == 4) tbb::parallel_reduce(range, b); else with_part(part, [&](auto&& p) { tbb::parallel_reduce(range, b, p); });
         if (b.dead || b.running) vs_violation("JOIN-PARTNER", "the user's body was joined away / is still running at return");
         check_seq(b.acc, "parallel_reduce(body)");
     } else {
@@ -161,16 +187,19 @@ static void op_reduce(const std::string& l) {
             if (acc.empty() && r.begin() != g_B) { n_splits++; if (other) n_splits_other++; }     // a fresh (split) accumulator
             vs_work(g_work);
             for (int i = r.begin(); i < r.end(); i++) acc.push_back(i);
+            maybe_nest();
             return acc; };
         auto jn = [](Seq a, const Seq& b) { n_joins++; a.insert(a.end(), b.begin(), b.end()); return a; };
         Seq res;
-        if (part == 4) res = tbb::parallel_reduce(range, Seq(), rb, jn); else with_part(part, [&](auto&& p) { res = tbb::parallel_reduce(range, Seq(), rb, jn, p); });
+        if (cx) { if (part == 4) res = tbb::parallel_reduce(range, Seq(), rb, jn, ctx); else with_part(part, [&](auto&& p) { res = tbb::parallel_reduce(range, Seq(), rb, jn, p, ctx); }); }
+        else if (part == 4) res = tbb::parallel_reduce(range, Seq(), rb, jn); else with_part(part, [&](auto&& p) { res = tbb::parallel_reduce(range, Seq(), rb, jn, p); });
         check_seq(res, "parallel_reduce(lambda)");
     }
     n_ops++;
     if (n_splits_other > s0) { n_nt_ops++; g_flags.insert("reduce_split_on_steal"); }
     if (n_body_calls - c0 >= 2) g_flags.insert("reduce_multi_chunk");
-    g_flags.insert(std::string("reduce_") + (body ? "body_" : "fn_") + PARTS[part]);
+    g_flags.insert(std::string("reduce_") + (body ? "body_" : "fn_") + PARTS[part]); if (cx) g_flags.insert("reduce_context_overload"); if (g_nest) g_flags.insert("nested_wait_in_body");
+    g_nest = 0;
 }
 
 // ------------------------------------------------------------------ deterministic reduce
@@ -182,7 +211,7 @@ struct DBody {
     DBody(DBody&, tbb::split) { n_splits++; if (vs_self() != g_caller) n_splits_other++; }
     void operator()(const BR& r) {
         range_check(r, "parallel_deterministic_reduce"); n_body_calls++; g_dr_leaves++; if (vs_self() != g_caller) { n_body_other++; g_dr_other = true; }
-        vs_work(g_work); std::string lf = leaf_str(r); s = s.empty() ? lf : "(" + s + " " + lf + ")";
+        vs_work(g_work); maybe_nest(); std::string lf = leaf_str(r); s = s.empty() ? lf : "(" + s + " " + lf + ")";
     }
     void join(DBody& rhs) { n_joins++; s = "(" + s + " " + rhs.s + ")"; }
 };
@@ -196,37 +225,51 @@ static void check_paren(const std::string& s, const char* what) {   // leaves in
     }
     if (pos != g_B + g_N || (g_N > 0 && !any)) vs_violation("REDUCE-RESULT", "%s: result covers [%d,%d) of [%d,%d): %s", what, g_B, pos, g_B, g_B + g_N, s.substr(0, 300).c_str());
 }
-static std::string dreduce_once(const BR& range, bool body, int part) {
-    g_caller = vs_self();
-    if (body) { DBody b; if (part == 0) tbb::parallel_deterministic_reduce(range, b, tbb::simple_partitioner()); else tbb::parallel_deterministic_reduce(range, b, tbb::static_partitioner()); return b.s; }
+static std::string dreduce_once(const BR& range, bool body, int part, bool cx) {
+    g_caller = vs_self(); tbb::task_group_context ctx(tbb::task_group_context::isolated);
+    if (body) {
+        DBody b;
+        if (cx) { if (part == 0) tbb::parallel_deterministic_reduce(range, b, tbb::simple_partitioner(), ctx); else if (part == 2) tbb::parallel_deterministic_reduce(range, b, tbb::static_partitioner(), ctx); else tbb::parallel_deterministic_reduce(range, b, ctx); }
+        else { if (part == 0) tbb::parallel_deterministic_reduce(range, b, tbb::simple_partitioner()); else if (part == 2) tbb::parallel_deterministic_reduce(range, b, tbb::static_partitioner()); else tbb::parallel_deterministic_reduce(range, b); }
+        return b.s;
+    }
     auto rb = [](const BR& r, std::string init) {
         range_check(r, "parallel_deterministic_reduce"); n_body_calls++; g_dr_leaves++; if (vs_self() != g_caller) { n_body_other++; g_dr_other = true; }
-        vs_work(g_work); std::string lf = leaf_str(r); return init.empty() ? lf : "(" + init + " " + lf + ")"; };
+        vs_work(g_work); maybe_nest(); std::string lf = leaf_str(r); return init.empty() ? lf : "(" + init + " " + lf + ")"; };
     auto jn = [](const std::string& a, const std::string& b) { n_joins++; return "(" + a + " " + b + ")"; };
+    if (cx) {
+        if (part == 0) return tbb::parallel_deterministic_reduce(range, std::string(), rb, jn, tbb::simple_partitioner(), ctx);
+        if (part == 2) return tbb::parallel_deterministic_reduce(range, std::string(), rb, jn, tbb::static_partitioner(), ctx);
+        return tbb::parallel_deterministic_reduce(range, std::string(), rb, jn, ctx);
+    }
     if (part == 0) return tbb::parallel_deterministic_reduce(range, std::string(), rb, jn, tbb::simple_partitioner());
-    return tbb::parallel_deterministic_reduce(range, std::string(), rb, jn, tbb::static_partitioner());
+    if (part == 2) return tbb::parallel_deterministic_reduce(range, std::string(), rb, jn, tbb::static_partitioner());
+    return tbb::parallel_deterministic_reduce(range, std::string(), rb, jn);
 }
 static void op_dreduce(const std::string& l, int mc) {
     bool body = kvs(l, "form", "fn") == "body"; int part = part_of(l); g_B = (int)kvl(l, "begin", 0); g_N = (int)kvl(l, "n", 0); int g = (int)kvl(l, "grain", 1); g_work = (int)kvl(l, "work", 0); int runs = (int)kvl(l, "runs", 2);
-    if (g < 1 || g_N < 0 || (part != 0 && part != 2)) vs_inconclusive("BAD-CASE", "dreduce");
+    if (g < 1 || g_N < 0 || (part != 0 && part != 2 && part != 4)) vs_inconclusive("BAD-CASE", "dreduce");
+    bool cx = kvl(l, "ctx", 0) != 0; g_nest = (int)kvl(l, "nest", 0);
     BR range(g_B, g_B + g_N, (size_t)g);
     struct Run { std::string s; int conc; const char* where; };
     std::vector<Run> rs; g_dr_other = false; g_dr_leaves = 0;
     {   // (a) the current (test) arena while max_allowed_parallelism is 1
         tbb::global_control one(tbb::global_control::max_allowed_parallelism, 1);
-        rs.push_back({ dreduce_once(range, body, part), tbb::this_task_arena::max_concurrency(), "test arena, max_allowed_parallelism=1" });
+        rs.push_back({ dreduce_once(range, body, part, cx), tbb::this_task_arena::max_concurrency(), "test arena, max_allowed_parallelism=1" });
     }
-    for (int k = 1; k < runs; k++) rs.push_back({ dreduce_once(range, body, part), tbb::this_task_arena::max_concurrency(), "test arena, all workers" });
+    for (int k = 1; k < runs; k++) rs.push_back({ dreduce_once(range, body, part, cx), tbb::this_task_arena::max_concurrency(), "test arena, all workers" });
     {   // (b) a one-slot arena: only the calling thread
         tbb::task_arena solo(1); std::string s; int conc = 0;
-        solo.execute([&] { s = dreduce_once(range, body, part); conc = tbb::this_task_arena::max_concurrency(); });
+        solo.execute([&] { s = dreduce_once(range, body, part, cx); conc = tbb::this_task_arena::max_concurrency(); });
         rs.push_back({ s, conc, "one-slot arena" });
     }
     {   // (c) a second arena with the same number of slots as the test arena
         tbb::task_arena twin(mc); std::string s; int conc = 0;
-        twin.execute([&] { s = dreduce_once(range, body, part); conc = tbb::this_task_arena::max_concurrency(); });
+        twin.execute([&] { s = dreduce_once(range, body, part, cx); conc = tbb::this_task_arena::max_concurrency(); });
         rs.push_back({ s, conc, "second arena of equal size" });
     }
+    // reference tree: the explicit simple_partitioner overload without a context (simple and default must reproduce it)
+    if (part != 2) rs.push_back({ dreduce_once(range, body, 0, false), tbb::this_task_arena::max_concurrency(), "reference: explicit simple_partitioner, no context" });
     for (auto& r : rs) check_paren(r.s, "parallel_deterministic_reduce");
     for (size_t a = 0; a < rs.size(); a++) for (size_t b = a + 1; b < rs.size(); b++) {
         if (part == 2 && rs[a].conc != rs[b].conc) continue;      // static_partitioner: initial divisor = max_concurrency()
@@ -235,14 +278,15 @@ static void op_dreduce(const std::string& l, int mc) {
     }
     n_ops++;
     if (g_dr_other && g_dr_leaves > (int)rs.size()) { n_nt_ops++; g_flags.insert("dreduce_leaf_on_other_thread"); }
-    g_flags.insert(std::string("dreduce_") + (body ? "body_" : "fn_") + PARTS[part]);
+    g_flags.insert(std::string("dreduce_") + (body ? "body_" : "fn_") + PARTS[part]); if (cx) g_flags.insert("dreduce_context_overload"); if (g_nest) g_flags.insert("nested_wait_in_body");
+    g_nest = 0;
 }
 
 // ------------------------------------------------------------------ scan
 static std::vector<int> g_final_cnt; static bool g_scan_other = false; static long g_scan_pre = 0;
 static void scan_visit(const BR& r, Seq& sum, bool fin) {
     range_check(r, "parallel_scan"); n_body_calls++; if (vs_self() != g_caller) { n_body_other++; g_scan_other = true; }
-    vs_work(g_work);
+    vs_work(g_work); maybe_nest();
     if (fin) {
         n_final++;
         // the incoming prefix of a final pass must be exactly [B, r.begin)
@@ -263,6 +307,7 @@ struct SBody {
 static void op_scan(const std::string& l) {
     bool body = kvs(l, "form", "fn") == "body"; int part = part_of(l); g_B = (int)kvl(l, "begin", 0); g_N = (int)kvl(l, "n", 0); int g = (int)kvl(l, "grain", 1); g_work = (int)kvl(l, "work", 0);
     if (g < 1 || g_N < 0 || part == 2 || part == 3) vs_inconclusive("BAD-CASE", "scan");
+    g_nest = (int)kvl(l, "nest", 0);
     BR range(g_B, g_B + g_N, (size_t)g); g_caller = vs_self(); g_final_cnt.assign((size_t)g_N, 0); g_scan_other = false; g_scan_pre = 0;
     Seq res;
     if (body) {
@@ -278,7 +323,8 @@ static void op_scan(const std::string& l) {
     check_seq(res, "parallel_scan return value");
     n_ops++;
     if (g_scan_pre > 0 && g_scan_other) { n_nt_ops++; g_flags.insert("scan_prepass_after_steal"); }
-    g_flags.insert(std::string("scan_") + (body ? "body_" : "fn_") + PARTS[part]);
+    g_flags.insert(std::string("scan_") + (body ? "body_" : "fn_") + PARTS[part]); if (g_nest) g_flags.insert("nested_wait_in_body");
+    g_nest = 0;
 }
 
 // ------------------------------------------------------------------ sort
@@ -336,7 +382,7 @@ void h_run(Case& c) {
     vs_begin(c.sched.c_str());
     {
         tbb::global_control gc(tbb::global_control::max_allowed_parallelism, (size_t)par);
-        tbb::task_arena arena(mc);
+        tbb::task_arena arena(mc); tbb::task_arena helper(1, 0); g_helper = &helper;
         arena.execute([&] {
             for (auto& l : ops) {
                 std::string k = split_ws(l)[0];
@@ -345,8 +391,9 @@ void h_run(Case& c) {
             }
         });
     }
+    g_helper = nullptr;
     vs_end();
-    vs_stat_add("n_ops", n_ops); vs_stat_add("n_body_calls", n_body_calls); vs_stat_add("n_body_other", n_body_other); vs_stat_add("n_splits", n_splits); vs_stat_add("n_splits_other", n_splits_other);
+    vs_stat_add("n_nested_waits", n_nested); vs_stat_add("n_ops", n_ops); vs_stat_add("n_body_calls", n_body_calls); vs_stat_add("n_body_other", n_body_other); vs_stat_add("n_splits", n_splits); vs_stat_add("n_splits_other", n_splits_other);
     vs_stat_add("n_joins", n_joins); vs_stat_add("n_prescan", n_prescan); vs_stat_add("n_finalscan", n_final); vs_stat_add("n_cmp", n_cmp); vs_stat_add("n_cmp_other", n_cmp_other);
     for (auto& f : g_flags) vs_stat_flag(f.c_str());
     vs_stat_add("nt", n_nt_ops > 0 ? 1 : 0);
